@@ -158,6 +158,62 @@ def coq_bundle_out(b) -> str:
     return f"(mkBundle {txt(b.id)} {z(us(b.inception))} {z(us(b.expiration))} {keys} {sigs} None)"
 
 
+def oracle_tables(tok, modules, ksks, raws):
+    """Oracle rows for the signing model from what one run did: (Blobs, hrows, trows, vrows, drows).
+    raws: the RRSIG signature data the implementation computed (spied at make_raw_rrsig)."""
+    # ---- oracle tables
+    bl = Blobs()
+    hrows, trows, vrows, drows = [], [], [], []
+    seen_raw = []
+    for raw in raws:
+        if raw in seen_raw:
+            continue
+        seen_raw.append(raw)
+        bi = bl.add(raw)
+        for name, hid in HNUM.items():
+            hrows.append(f"({hid}, {bi}, {zlist(hashlib.new(name, raw).digest())})")
+    slot_of = {}
+    for mi, slots in enumerate(modules):
+        for s in slots:
+            slot_of[(f"emu:{mi}", s["id"])] = mi
+    sig_by_call = []
+    for e in tok.sign_log:
+        bi = bl.add(e["data"])
+        if e["result"] is not None:
+            res = f"(OK {handle(b'sig:' + base64.b64encode(e['result']))})"
+        else:
+            res = f"(Raise {EXN['PyKCS11Error']})"
+        trows.append(f"({slot_of[(e['module'], e['slot'])]}, {e['slot']}, {e['handle']}, {e['mech']}, {bi}, {res})")
+        sig_by_call.append(e)
+    # verify rows: every (token public key, its algorithm per configured KSK, observed raw, produced signature)
+    pubs = {}
+    for slots in modules:
+        for s in slots:
+            for o in s["objs"]:
+                if o["key"] is not None:
+                    pubs[base64.b64encode(o["key"]["pub"])] = o["key"]
+    algs = sorted({specs.ALGNUM[d["algorithm"]] for d in ksks.values()})
+    for raw in seen_raw:
+        bi = bl.add(raw)
+        for e in sig_by_call:
+            if e["result"] is None:
+                continue
+            for ptxt, kd in pubs.items():
+                for a in algs:
+                    if (a in (5, 8, 10)) != (kd["alg"] in (5, 8, 10)):
+                        continue
+                    verdict = ksrxml.verify_raw(kd["pub"], a, raw, e["result"]) if a in ksrxml.HASH else False
+                    if verdict or kd["id"] == e["label"]:
+                        vrows.append(f"({handle(ptxt)}, {a}, {bi}, {handle(b'sig:' + base64.b64encode(e['result']))}, {coq_bool(verdict)})")
+    for ptxt, kd in pubs.items():
+        for a in algs:
+            if (a in (5, 8, 10)) != (kd["alg"] in (5, 8, 10)):
+                continue
+            pre = b"\x00" + ksrxml.rdata(257, 3, a, kd["pub"])
+            drows.append(f"({bl.add(pre)}, {txt(hashlib.sha256(pre).hexdigest().upper())})")
+    return bl, hrows, trows, vrows, drows
+
+
 def run_sign(sc: dict):
     """sc: modules, ksks {name: config dict}, schema, request (dict), ttl, validate (bool), faults {opindex: kind}
     -> dict with impl result, coq case text, observations"""
@@ -192,56 +248,8 @@ def run_sign(sc: dict):
             r = vlib.run_impl(lambda: list(ksign.sign_bundles(req, cfg.get_schema("s"), p11, cfg.ksk_policy, cfg)))
     finally:
         ksign.make_raw_rrsig = orig_raw
-    # ---- oracle tables
-    bl = Blobs()
-    hrows, trows, vrows, drows = [], [], [], []
-    seen_raw = []
-    for raw in raws:
-        if raw in seen_raw:
-            continue
-        seen_raw.append(raw)
-        bi = bl.add(raw)
-        for name, hid in HNUM.items():
-            hrows.append(f"({hid}, {bi}, {zlist(hashlib.new(name, raw).digest())})")
-    slot_of = {}
-    for mi, slots in enumerate(sc["modules"]):
-        for s in slots:
-            slot_of[(f"emu:{mi}", s["id"])] = mi
-    sig_by_call = []
-    for e in tok.sign_log:
-        bi = bl.add(e["data"])
-        if e["result"] is not None:
-            res = f"(OK {handle(b'sig:' + base64.b64encode(e['result']))})"
-        else:
-            res = f"(Raise {EXN['PyKCS11Error']})"
-        trows.append(f"({slot_of[(e['module'], e['slot'])]}, {e['slot']}, {e['handle']}, {e['mech']}, {bi}, {res})")
-        sig_by_call.append(e)
-    # verify rows: every (token public key, its algorithm per configured KSK, observed raw, produced signature)
-    pubs = {}
-    for slots in sc["modules"]:
-        for s in slots:
-            for o in s["objs"]:
-                if o["key"] is not None:
-                    pubs[base64.b64encode(o["key"]["pub"])] = o["key"]
-    algs = sorted({specs.ALGNUM[d["algorithm"]] for d in sc["ksks"].values()})
-    for raw in seen_raw:
-        bi = bl.add(raw)
-        for e in sig_by_call:
-            if e["result"] is None:
-                continue
-            for ptxt, kd in pubs.items():
-                for a in algs:
-                    if (a in (5, 8, 10)) != (kd["alg"] in (5, 8, 10)):
-                        continue
-                    verdict = ksrxml.verify_raw(kd["pub"], a, raw, e["result"]) if a in ksrxml.HASH else False
-                    if verdict or kd["id"] == e["label"]:
-                        vrows.append(f"({handle(ptxt)}, {a}, {bi}, {handle(b'sig:' + base64.b64encode(e['result']))}, {coq_bool(verdict)})")
-    for ptxt, kd in pubs.items():
-        for a in algs:
-            if (a in (5, 8, 10)) != (kd["alg"] in (5, 8, 10)):
-                continue
-            pre = b"\x00" + ksrxml.rdata(257, 3, a, kd["pub"])
-            drows.append(f"({bl.add(pre)}, {txt(hashlib.sha256(pre).hexdigest().upper())})")
+    bl, hrows, trows, vrows, drows = oracle_tables(tok, sc["modules"], sc["ksks"], raws)
+    seen_raw = list(dict.fromkeys(raws))
     oracles = f"(mkOracles {bl.coq()} [{';'.join(hrows)}] [{';'.join(trows)}] [{';'.join(dict.fromkeys(vrows))}] [{';'.join(drows)}])"
     if r[0] == "ok":
         impl = "(OK [" + ";".join(coq_bundle_out(b) for b in r[1]) + "])"
